@@ -468,8 +468,71 @@ def run_same_text_case(ctx, rng, n, mon):
         ctx.violation('c08.same_text_subqueries', f'{text} {params}: row {d[0]} engine={show(d[1])} model={show(d[2])} (two sub-selects with the same text, different meaning)', case)
 
 
+CURSOR_GOOD = [
+    'SELECT * FROM (SELECT account, number WHERE number > 0)',
+    'SELECT a, sum(n) AS s FROM (SELECT account AS a, number AS n) GROUP BY a',
+    'SELECT account, number WHERE account IN (SELECT account FROM #accounts WHERE account ~ "Assets")',
+    'SELECT date, account, number',
+    'SELECT account, count(*) AS c GROUP BY account',
+    'SELECT account WHERE number IN (SELECT number WHERE number > 100)',
+    'SELECT * FROM (SELECT account AS a FROM #accounts)',
+    'SELECT a FROM (SELECT account AS a, number AS n FROM CLOSE ON 2020-06-01) WHERE n > 0',
+]
+CURSOR_BAD = [
+    'SELECT nosuch FROM (SELECT account, number)',
+    'SELECT account WHERE account IN (SELECT nosuch FROM #accounts)',
+    'SELECT x FROM (SELECT account FROM #accounts)',
+    'SELECT account FROM CLOSE ON 2020-01-01 WHERE nosuch > 1',
+    'SELECT account WHERE account IN (SELECT account, number FROM #postings)',
+    'SELECT account FROM #accounts WHERE nosuch',
+    'SELECT a FROM (SELECT account AS a FROM OPEN ON 2020-01-01 CLEAR) WHERE b',
+]
+
+
+def run_cursor_case(ctx, rng, n, mon):
+    """One cursor (and one connection) used for a series of statements with sub-queries, some of which are refused after
+    their FROM clause has been compiled: every accepted statement gives what it gives on a new connection."""
+    from .. import ledgers
+    led = ledgers.gen_ledger(rng, ntxn=rng.randint(5, 12))
+    conn = engine.connection(ledger=led.loaded)
+    cur = conn.cursor()
+    history = []
+    for _ in range(rng.randint(3, 8)):
+        bad = rng.random() < 0.4
+        text = rng.choice(CURSOR_BAD if bad else CURSOR_GOOD)
+        history.append(text)
+        via = cur if rng.random() < 0.7 else conn
+        try:
+            c = via.execute(text)
+            got = ([d.name for d in c.description], c.fetchall())
+            err = None
+        except Exception as exc:  # noqa: BLE001
+            got, err = None, exc
+        try:
+            c2 = engine.connection(ledger=led.loaded).execute(text)
+            exp = ([d.name for d in c2.description], c2.fetchall())
+            err2 = None
+        except Exception as exc:  # noqa: BLE001
+            exp, err2 = None, exc
+        ctx.count('obs.cursor_history_statements')
+        if bad:
+            ctx.count('obs.cursor_history_rejections')
+        ctx.case(('cursor', led.text, tuple(history)), len(history) >= 2)
+        case = {'replay': ['cursor', n], 'history': list(history), 'ledger': led.text}
+        if (err is None) != (err2 is None) or (err is not None and type(err) is not type(err2)):
+            ctx.violation('c08.history_dependence', f'{text!r} after {history[:-1]}: on the used cursor {err!r}, on a new connection {err2!r}', case)
+            return
+        if err is None and (got[0] != exp[0] or not same_rows(got[1], exp[1])):
+            ctx.violation('c08.history_dependence', f'{text!r} after {history[:-1]} on a used cursor: {len(got[1])} rows {got[0]}; on a new connection {len(exp[1])} rows {exp[0]}', case)
+            return
+
+
 def run(ctx):
     mon = monitors.install()
+    for n in range(ctx.pick(12, 300)):
+        if ctx.out_of_time():
+            break
+        run_cursor_case(ctx, ctx.rng('cursor', n), n, mon)
     for n in range(ctx.pick(60, 1500)):
         if ctx.out_of_time():
             break
@@ -491,7 +554,7 @@ def run(ctx):
 def replay(ctx, case):
     mon = monitors.install()
     part, n = case['replay']
-    {'from': run_from_case, 'in': run_in_case, 'ledger': run_ledger_case, 'same-text': run_same_text_case}[part](ctx, ctx.rng(part, n), n, mon)
+    {'from': run_from_case, 'in': run_in_case, 'ledger': run_ledger_case, 'same-text': run_same_text_case, 'cursor': run_cursor_case}[part](ctx, ctx.rng(part, n), n, mon)
 
 
 def finalize(merged):
@@ -505,6 +568,8 @@ def finalize(merged):
         reasons.append('no ledger sub-query with period clauses compared')
     if c.get('obs.same_text_subqueries.params', 0) == 0 or c.get('obs.same_text_subqueries.depth', 0) == 0:
         reasons.append('no statement with two same-text sub-selects compared')
+    if c.get('obs.cursor_history_rejections', 0) == 0:
+        reasons.append('no refused statement inside a cursor history')
     if c.get('obs.star_cases', 0) == 0:
         reasons.append('no SELECT * FROM (q) case')
     if c.get('obs.in_subquery_with_limit', 0) == 0:
